@@ -542,6 +542,11 @@ func RunOp(cfg *Config, op *Op) (*OpReport, error) {
 	}
 	seen := map[string]bool{}
 	seenNT := map[string]bool{}
+	failCount := map[string]int{}
+	perClass := cfg.MaxFail
+	if perClass > 8 {
+		perClass = 8
+	}
 	var single *Driver
 	defer func() {
 		if single != nil {
@@ -578,7 +583,9 @@ func RunOp(cfg *Config, op *Op) (*OpReport, error) {
 			s, _ := json.Marshal(map[string]any{"op": op.Name, "source": c.source, "in": json.RawMessage(truncJSON(c.in)), "impl": json.RawMessage(truncJSON(c.impl))})
 			rep.Samples = append(rep.Samples, s)
 		}
-		if f := judge(op, c, r); f != nil && len(rep.Failures) < cfg.MaxFail {
+		// the cap is per (kind, signature): a frequent (possibly known) class of failure must not crowd out a different one
+		if f := judge(op, c, r); f != nil && failCount[f.Kind+"|"+f.Signature] < perClass && len(rep.Failures) < 20*cfg.MaxFail {
+			failCount[f.Kind+"|"+f.Signature]++
 			if op.Shrink != nil {
 				if single == nil {
 					single, err = StartDriver(cfg.Driver)
